@@ -45,6 +45,21 @@ def make_replay(prop, key, f, results, scratch):
                     rec["real_code_result"] = out
                     reproduced = bool(out.get("disagrees"))
                     rec["reproduced"] = reproduced
+        if mod is not None and not reproduced and not f.get("harness") and hasattr(mod, "candidates"):
+            # Verus gives no counterexample: the unit may name candidate inputs (corner cases of the failed clause, written with the
+            # contract).  Each is run on the real code; the first one whose behaviour contradicts the clause is the failing input.
+            tried = []
+            for lifted in (mod.candidates(f) or []):
+                out = run_probe(lifted, scratch)
+                tried.append({"lifted_input": lifted, "real_code_result": out})
+                rec["replayed_on_real_code"] = True
+                if out.get("disagrees"):
+                    rec["lifted_input"] = lifted
+                    rec["real_code_result"] = out
+                    reproduced = True
+                    rec["reproduced"] = True
+                    break
+            rec["candidates_tried"] = tried
     except Exception as e:  # replay is best effort; the violation stands on the failed obligation
         rec["replay_error"] = repr(e)
     with open(path, "w") as fh:
